@@ -67,8 +67,32 @@ func genC18(t *rapid.T) c18Case {
 			// partial shrink: delete then give pages back
 			ops = append(ops, lsw.Op{K: "delete", T: 0, A: rapid.IntRange(0, 50).Draw(t, "a"), B: rapid.IntRange(50, 100).Draw(t, "b")},
 				lsw.Op{K: "incvacuum", N: rapid.IntRange(0, 10).Draw(t, "n")})
-		case r < 62:
+		case r < 58:
 			ops = append(ops, lsw.Op{K: "sleep", N: 2}, lsw.Op{K: "syncwait"})
+		case r < 62:
+			// several replicated transactions of different kinds (growth, shrink by VACUUM or by incremental vacuum,
+			// in-place change) picked up by ONE poll
+			if !opened {
+				ops = append(ops, lsw.Op{K: "vfs-open"})
+				opened = true
+			}
+			for k := rapid.IntRange(2, 4).Draw(t, "episodeFiles"); k > 0; k-- {
+				switch rapid.IntRange(0, 4).Draw(t, "episodeKind") {
+				case 0, 1:
+					ops = append(ops, lsw.Op{K: "insert", T: 0, N: rapid.SampledFrom([]int{12, 30, 30}).Draw(t, "n"), S: rapid.IntRange(1, 3).Draw(t, "size")})
+				case 2:
+					a := rapid.IntRange(0, 70).Draw(t, "a")
+					ops = append(ops, lsw.Op{K: "delete", T: 0, A: a, B: rapid.IntRange(a+10, 100).Draw(t, "b")}, lsw.Op{K: "vacuum"})
+				case 3:
+					a := rapid.IntRange(0, 70).Draw(t, "a")
+					ops = append(ops, lsw.Op{K: "delete", T: 0, A: a, B: rapid.IntRange(a+10, 100).Draw(t, "b")}, lsw.Op{K: "incvacuum", N: rapid.IntRange(0, 10).Draw(t, "n")})
+				default:
+					a := rapid.IntRange(0, 90).Draw(t, "a")
+					ops = append(ops, lsw.Op{K: "update", T: 0, A: a, B: rapid.IntRange(a, 100).Draw(t, "b")})
+				}
+				ops = append(ops, lsw.Op{K: "sleep", N: 2}, lsw.Op{K: "syncwait"})
+			}
+			ops = append(ops, lsw.Op{K: "vfs-poll"})
 		case r < 72:
 			ops = append(ops, lsw.Op{K: "compact", L: rapid.IntRange(1, cfg.Levels).Draw(t, "level")})
 			if opened && rapid.Bool().Draw(t, "pollAfterCompact") {
